@@ -267,5 +267,34 @@ theorem sub_cartesian_float {a p : Geonum F} (ha : a.angle.Inv) (hp : p.angle.In
         = val (a.add p.negate).mag * Real.sin (Tpi (a.add p.negate).angle) - (val a.mag * Real.sin (Tpi a.angle) + val p.mag * -Real.sin (Tpi p.angle)) := by ring
     rw [e]; exact q2
 
+
+/-- **`scale_rotate` in rounded arithmetic**: the magnitude is the one rounded product `|g|·|f|`, and the float total of the angle is
+    `T g + T r`, plus exactly a half turn `2·(π_f/2)` when the factor tests negative, up to one snap and one rounding -/
+theorem scaleRotate_float {g : Geonum F} {f : F} {r : Angle F} (hg : g.angle.Inv) (hr : r.Inv) (hm : Fin g.mag) (hf : Fin f) :
+    (flt f zero = true →
+      (g.scaleRotate f r).mag = fmul g.mag (fabs f) ∧
+      ∃ δ : ℝ, |δ| < val (e10 : F) + 1 / 10 ^ 15 ∧
+        Tq (g.scaleRotate f r).angle = Tq g.angle + 2 * val (qp : F) + Tq r + δ) ∧
+    (flt f zero = false →
+      (g.scaleRotate f r).mag = fmul g.mag f ∧
+      ∃ δ : ℝ, |δ| < val (e10 : F) + 1 / 10 ^ 15 ∧ Tq (g.scaleRotate f r).angle = Tq g.angle + Tq r + δ) := by
+  constructor
+  · intro h
+    have hdef : g.scaleRotate f r = ⟨fmul g.mag (fabs f), g.angle.negate.geometricAdd r⟩ := by
+      simp [Geonum.scaleRotate, h, Geonum.newWithAngle, Angle.add, addVV]
+    obtain ⟨hb, hfr, hv⟩ := negate_spec hg
+    have hninv : g.angle.negate.Inv := inv_of_spec hg ⟨hfr, hv⟩
+    obtain ⟨δ, hδ, hT⟩ := add_total_q hninv hr
+    have hTn : Tq g.angle.negate = Tq g.angle + 2 * val (qp : F) := by
+      unfold Tq; rw [hb, hv]; push_cast; ring
+    rw [hdef]
+    exact ⟨rfl, δ, hδ, by show Tq (g.angle.negate.geometricAdd r) = _; rw [hT, hTn]⟩
+  · intro h
+    have hdef : g.scaleRotate f r = ⟨fmul g.mag f, g.angle.geometricAdd r⟩ := by
+      simp [Geonum.scaleRotate, h, Geonum.newWithAngle, Angle.add, addVV]
+    obtain ⟨δ, hδ, hT⟩ := add_total_q hg hr
+    rw [hdef]
+    exact ⟨rfl, δ, hδ, hT⟩
+
 end Geonum
 end GeonumModel
